@@ -7,6 +7,7 @@ CONSTANTS
   AllowMixed = TRUE
   NCorrupt = 0
   Subst0 = {48}
+  WithRelocs = TRUE
   Lens = {0, 3}
 INIT Init
 NEXT Next
